@@ -44,7 +44,16 @@ def strategy(tier):
                 iteration_limit=100 if tier == "quick" else 300,
             )
         )
-        if draw(st.integers(0, 3)) == 0:
+        if draw(st.integers(0, 7)) == 0:
+            # an equation solved exactly on a variable bound: constraint values become exactly 0.0 in the middle of a run
+            spec = draw(S.degenerate_spec(max_n=3, kinds=("row_on_bound",)))
+            case["spec"] = spec
+            case["start"] = draw(S.start_point(spec))
+            case["scaling"] = {"kind": "none"}
+            case["params"]["penalty_update"] = draw(st.sampled_from(["DualEquilibration", "DualEquilibration", "DualNorm", "ParetoDecrease"]))
+            if draw(st.booleans()):
+                case["start"] = dict(case["start"], y0=[draw(st.sampled_from([-500.0, 250.0, 1000.0]))])
+        elif draw(st.integers(0, 3)) == 0:
             # functions non-finite further than R from the start: trial points the step controller accepts may
             # turn out to be unevaluable and are discarded -- they must leave no trace in the penalty
             case["domain"] = {"R": draw(st.sampled_from([0.1, 0.5, 2.0])), "component": draw(st.sampled_from(["obj", "any", "obj_grad", "cons"])), "value": draw(st.sampled_from(["nan", "inf"]))}
